@@ -4,18 +4,13 @@ import depslib
 
 
 def run(ctx):
-    ok_build, log = ctx.coq_build()
-    props_ok, pout = (False, log)
-    if vo_ok("Props/" + ctx.pid) or ok_build:
-        props_ok, pout = ctx.coq_props()
-    if not props_ok:
-        ctx.violation({"kind": "theorem-no-longer-checks", "file": "coq/Props/%s.v" % ctx.pid, "log": pout[-1500:]}, found_input=False)
+    ctx.prove(["Props/%s.vo" % ctx.pid, "Run/eval_deps.vo"])
     ctx.trusted_base += depslib_trusted()
     depslib.run_engine_check(ctx, ctx.pid, 400 if ctx.quick else 6000)
 
 
 def depslib_trusted():
-    return ["Coq 8.16.1 kernel + vm_compute", "harness/depsrun (gates, logging under one mutex: the logged order is a real-time order of the logging points)",
+    return ["harness/depsrun (gates, logging under one mutex: the logged order is a real-time order of the logging points)",
             "lib/depslib.py (generator, Coq term printer, oracles)",
             "sync.Mutex / sync.Once / sync.WaitGroup provide the atomicity the step rules of Model/Deps.v assume",
             "Model/DepsReplay.guess is untrusted: acceptance re-runs Model/Deps.run on the guessed schedule"]
